@@ -1,4 +1,4 @@
-use proc_macro2::{Span, TokenStream, TokenTree};
+use proc_macro2::{Delimiter, Span, TokenStream, TokenTree};
 use quote::quote;
 use std::borrow::Cow;
 use syn::spanned::Spanned;
@@ -396,12 +396,24 @@ impl Parser {
         };
 
         let body = match tokens.next() {
-            Some(TokenTree::Group(group)) => group.stream(),
             Some(first) => {
-                let mut body = TokenStream::from(first);
+                let mut rest = tokens.peekable();
 
-                body.extend(tokens);
-                body
+                match first {
+                    // `|arg| { ... }`: a body that is one braced block stands for its statements
+                    TokenTree::Group(ref group)
+                        if group.delimiter() == Delimiter::Brace && rest.peek().is_none() =>
+                    {
+                        group.stream()
+                    }
+                    // anything else is the expression as written, e.g. `(a + b) * 2`
+                    first => {
+                        let mut body = TokenStream::from(first);
+
+                        body.extend(rest);
+                        body
+                    }
+                }
             }
             None => {
                 self.err("Callback missing a body", span);
